@@ -1,3 +1,4 @@
 pub mod attrs;
 pub mod layer;
 pub mod lex;
+pub mod xmlname;
